@@ -132,4 +132,80 @@ def utf8Enc (s : Str) : Option Bytes := encodeWith utf8Char s
 /-- CPython's "utf-16" encoder (strict) on a little-endian machine: BOM `FF FE`, then little-endian units -/
 def utf16Enc (s : Str) : Option Bytes := (encodeWith utf16Char s).map ([0xFF, 0xFE] ++ ·)
 
+/-! ### the decoders (strict) -/
+
+def isCont (b : Nat) : Bool := 0x80 ≤ b && b < 0xC0
+
+def consOpt (c : Nat) (r : Option Str) : Option Str := r.map (c :: ·)
+
+/-- CPython's "utf-8" decoder (strict): shortest form only, no surrogates, nothing above U+10FFFF, no truncated or stray
+    continuation bytes.  (`fuel` = the number of bytes; every step consumes at least one.) -/
+def utf8DecF : Nat → Bytes → Option Str
+  | _, [] => some []
+  | 0, _ :: _ => none
+  | f + 1, b0 :: r =>
+    if b0 < 0x80 then consOpt b0 (utf8DecF f r)
+    else if b0 < 0xC0 then none
+    else if b0 < 0xE0 then
+      match r with
+      | b1 :: r1 =>
+        let c := (b0 - 0xC0) * 64 + (b1 - 0x80)
+        if isCont b1 && decide (0x80 ≤ c) then consOpt c (utf8DecF f r1) else none
+      | _ => none
+    else if b0 < 0xF0 then
+      match r with
+      | b1 :: b2 :: r2 =>
+        let c := (b0 - 0xE0) * 4096 + (b1 - 0x80) * 64 + (b2 - 0x80)
+        if isCont b1 && isCont b2 && decide (0x800 ≤ c) && !isSurrogate c then consOpt c (utf8DecF f r2) else none
+      | _ => none
+    else if b0 < 0xF8 then
+      match r with
+      | b1 :: b2 :: b3 :: r3 =>
+        let c := (b0 - 0xF0) * 262144 + (b1 - 0x80) * 4096 + (b2 - 0x80) * 64 + (b3 - 0x80)
+        if isCont b1 && isCont b2 && isCont b3 && decide (0x10000 ≤ c) && decide (c < 0x110000) then consOpt c (utf8DecF f r3)
+        else none
+      | _ => none
+    else none
+
+def utf8Dec (b : Bytes) : Option Str := utf8DecF b.length b
+
+/-- little-endian UTF-16 code units → code points (strict: no lone surrogates, no odd trailing byte) -/
+def utf16UnitsF : Nat → Bytes → Option Str
+  | _, [] => some []
+  | 0, _ :: _ => none
+  | f + 1, lo :: hi :: r =>
+    if 256 ≤ lo || 256 ≤ hi then none
+    else
+      let u := lo + 256 * hi
+      if u < 0xD800 || 0xE000 ≤ u then consOpt u (utf16UnitsF f r)
+      else if u < 0xDC00 then
+        match r with
+        | lo2 :: hi2 :: r2 =>
+          if 256 ≤ lo2 || 256 ≤ hi2 then none
+          else
+            let u2 := lo2 + 256 * hi2
+            if 0xDC00 ≤ u2 && u2 < 0xE000 then consOpt (0x10000 + (u - 0xD800) * 1024 + (u2 - 0xDC00)) (utf16UnitsF f r2)
+            else none
+        | _ => none
+      else none
+  | _ + 1, [_] => none
+
+def swapPairs : Bytes → Bytes
+  | a :: b :: r => b :: a :: swapPairs r
+  | r => r
+
+/-- CPython's "utf-16" STREAM decoder (strict), the one a text file opened with `encoding="utf-16"` uses
+    (`encodings/utf_16.py`, `IncrementalDecoder._buffer_decode`): a BOM selects the byte order and is dropped; a non-empty
+    stream without one is rejected ("UTF-16 stream does not start with BOM"; unlike `bytes.decode`, which falls back to the
+    native order) -/
+def utf16Dec (b : Bytes) : Option Str :=
+  match b with
+  | 0xFF :: 0xFE :: r => utf16UnitsF r.length r
+  | 0xFE :: 0xFF :: r => utf16UnitsF r.length (swapPairs r)
+  | [] => some []
+  | _ => none
+
+def utf8 : Encoding := ⟨utf8Enc, utf8Dec⟩
+def utf16 : Encoding := ⟨utf16Enc, utf16Dec⟩
+
 end Uberjob.TextCodec
